@@ -47,7 +47,21 @@ def run(check, tier, seed, jobs, evid_path):
     samples = []
     checked = 0
     for cfg in ("A", "B"):
-        ok, err = check.cargo_build(cfg, bins=("fgv_probe", "fgv_san"))
+        # for C19 itself the Send-requiring workloads must compile: no fallback
+        ok, err = check.cargo_build(cfg, bins=("fgv_probe", "fgv_san"), allow_no_mt=False)
+        if not ok and send_sync_errors(err):
+            # still run the probe (it never requires Send) to name the values that lost the trait
+            okp, _ = check.cargo_build(cfg, bins=("fgv_probe",))
+            if okp:
+                pp = subprocess.run([check.bin_path(cfg, "fgv_probe")], cwd=check.VERIF, env=check.ENV, stdout=subprocess.PIPE, stderr=subprocess.PIPE, text=True)
+                try:
+                    facts_all[cfg] = json.loads(pp.stdout.strip().splitlines()[-1])["facts"]
+                    for k in (EXPECT_TRUE_A if cfg == "A" else EXPECT_TRUE_B):
+                        if k in facts_all[cfg] and not facts_all[cfg][k]:
+                            what, trait = k.rsplit(".", 1)
+                            violations.append({"prop": "C19", "kind": f"not-{trait}", "detail": f"configuration {cfg}: `{what}` is not {trait.capitalize()}", "case": f"cfg={cfg}|fact={k}", "log": ""})
+                except Exception:  # noqa
+                    pass
         if not ok:
             hits = send_sync_errors(err)
             if hits:
